@@ -274,3 +274,27 @@ def iter_source_local(b, header_bb):
         if s["k"] == "assign" and s["rv"]["k"] == "ref" and not s["rv"]["place"]["proj"]:
             return s["rv"]["place"]["local"]
     return None
+
+
+def chase_const(w, b, operand, depth=6):
+    """constant an operand evaluates to, following single-definition temporaries (use / reborrow chains)"""
+    if "const" in operand:
+        return absint.Interp(w, b).const_val(operand["const"])
+    p = operand.get("move") or operand.get("copy")
+    if p is None or depth == 0:
+        return None
+    defs = []
+    for blk in b.blocks:
+        if blk["cleanup"]:
+            continue
+        for s in blk["stmts"]:
+            if s["k"] == "assign" and not s["place"]["proj"] and s["place"]["local"] == p["local"]:
+                defs.append(s["rv"])
+    if len(defs) != 1:
+        return None
+    rv = defs[0]
+    if rv["k"] in ("use", "cast"):
+        return chase_const(w, b, rv["a"], depth - 1)
+    if rv["k"] == "ref":
+        return chase_const(w, b, {"copy": {"local": rv["place"]["local"], "proj": []}}, depth - 1)
+    return None
